@@ -75,6 +75,81 @@ type gl struct {
 	opaqueT     map[string]string // Go named struct type (used through pointers, never written) -> Lean type
 	opaqueF     map[string]string // "<Type>.<Field>" -> Lean accessor function
 	iterFuncs   map[string]bool   // translated names of iter.Seq functions (they take the consumer `yield` last)
+	// heap mode (trie): values of type *heapT live in an explicit heap, a list of their single (map) field;
+	// a pointer is an index into it, nil is -1; functions that write the heap return it next to their result
+	heapT       string
+	heapWr      bool            // the function being translated writes the heap
+	heapFuncs   map[string]bool // translated name -> writes the heap
+}
+
+const heapLean = "List (List (UInt8 × Int))"
+
+// isHeapPtr: t is *heapT
+func (g *gl) isHeapPtr(t types.Type) bool {
+	if g.heapT == "" || t == nil {
+		return false
+	}
+	p, ok := t.(*types.Pointer)
+	if !ok {
+		return false
+	}
+	n, ok := p.Elem().(*types.Named)
+	return ok && n.Obj().Pkg() == g.pkg && n.Obj().Name() == g.heapT
+}
+
+// heapField: e is x.<the field> for x of type *heapT; returns x
+func (g *gl) heapField(e ast.Expr) (ast.Expr, bool) {
+	se, ok := e.(*ast.SelectorExpr)
+	if !ok {
+		return nil, false
+	}
+	tv, ok := g.info.Types[se.X]
+	if !ok || !g.isHeapPtr(tv.Type) {
+		return nil, false
+	}
+	return se.X, true
+}
+
+// heapWrites: does the body write the heap (x.m[k] = …, delete(x.m, …), &heapT{…}, a call of a writing function)?
+func (g *gl) heapWrites(body ast.Node) bool {
+	wr := false
+	ast.Inspect(body, func(n ast.Node) bool {
+		switch v := n.(type) {
+		case *ast.AssignStmt:
+			for _, l := range v.Lhs {
+				if ie, ok := l.(*ast.IndexExpr); ok {
+					if _, ok := g.heapField(ie.X); ok {
+						wr = true
+					}
+				}
+			}
+		case *ast.UnaryExpr:
+			if cl, ok := v.X.(*ast.CompositeLit); ok && v.Op == token.AND && g.isHeapPtr(g.typeOf(v)) {
+				_ = cl
+				wr = true
+			}
+		case *ast.CallExpr:
+			if id, ok := v.Fun.(*ast.Ident); ok {
+				if id.Name == "delete" && len(v.Args) == 2 {
+					if _, ok := g.heapField(v.Args[0]); ok {
+						wr = true
+					}
+				}
+				if fn, ok := g.info.Uses[id].(*types.Func); ok && fn.Pkg() == g.pkg && g.heapFuncs[fn.Name()] {
+					wr = true
+				}
+			}
+			if sel, ok := v.Fun.(*ast.SelectorExpr); ok {
+				if fn, ok := g.info.Uses[sel.Sel].(*types.Func); ok && fn.Pkg() == g.pkg {
+					if ln, ok := g.methodNames[g.heapT+"."+fn.Name()]; ok && g.heapFuncs[ln] {
+						wr = true
+					}
+				}
+			}
+		}
+		return true
+	})
+	return wr
 }
 
 // opaqueName: the name of the opaque named type behind t (or behind *t), "" if there is none
@@ -114,6 +189,9 @@ func (g *gl) die(n ast.Node, why string) {
 func (g *gl) leanType(t types.Type) string {
 	if on := g.opaqueName(t); on != "" {
 		return g.opaqueT[on]
+	}
+	if g.isHeapPtr(t) {
+		return "Int"
 	}
 	switch u := t.Underlying().(type) {
 	case *types.Basic:
@@ -173,6 +251,9 @@ func paren(s string) string {
 
 // zero value of a type, as a Lean term (atom or parenthesised)
 func (g *gl) zero(t types.Type) string {
+	if g.isHeapPtr(t) {
+		return "(-1 : Int)"
+	}
 	switch u := t.Underlying().(type) {
 	case *types.Basic:
 		switch u.Kind() {
@@ -349,7 +430,7 @@ var leanKeywords = map[string]bool{"at": true, "from": true, "fun": true, "do": 
 var vocabulary = map[string]bool{"idx": true, "setIdx": true, "slice": true, "len": true, "upTo": true, "upToStep": true, "downFrom": true,
 	"enum": true, "cmp": true, "u8": true, "shl8": true, "shrInt": true, "andInt": true, "quo": true, "rem": true, "mapGet": true,
 	"copyInto": true, "containsAny": true, "replaceAll": true, "scan": true, "scanErr": true, "endErr": true, "wrWrite": true, "itoa": true,
-	"mapHas": true, "mapSet": true, "makeCap": true, "sprintf1": true, "fuel": true, "setInsert": true, "setErase": true, "sortInts": true, "sortByLess": true, "searchGo": true, "min": true, "max": true,
+	"mapHas": true, "mapSet": true, "mapErase": true, "heap": true, "makeCap": true, "sprintf1": true, "fuel": true, "setInsert": true, "setErase": true, "sortInts": true, "sortByLess": true, "searchGo": true, "min": true, "max": true,
 	"none": true, "some": true, "pure": true}
 
 // variables the translation introduces in reader / iterator / writer methods and iter.Seq closures
@@ -564,6 +645,9 @@ func (g *gl) expr(e ast.Expr) ex {
 			return atomE("[]")
 		}
 	case *ast.SelectorExpr:
+		if x, ok := g.heapField(v); ok {
+			return ex{text: "idx heap " + g.expr(x).arg(), act: true} // a nil pointer (-1) is out of range: panic
+		}
 		if tv, ok := g.info.Types[v.X]; ok && tv.Type != nil {
 			if on := g.opaqueName(tv.Type); on != "" {
 				acc, ok := g.opaqueF[on+"."+v.Sel.Name]
@@ -697,6 +781,13 @@ func (g *gl) binary(v *ast.BinaryExpr) ex {
 			return ex{text: "shrInt " + l.arg() + " " + r.arg(), act: true}
 		}
 	case token.EQL, token.NEQ, token.LSS, token.LEQ, token.GTR, token.GEQ:
+		if g.isHeapPtr(lt) && (v.Op == token.EQL || v.Op == token.NEQ) {
+			op := map[token.Token]string{token.EQL: "==", token.NEQ: "!="}[v.Op]
+			if yid, ok := v.Y.(*ast.Ident); ok && yid.Name == "nil" {
+				return ex{text: l.arg() + " " + op + " -1"}
+			}
+			return ex{text: l.arg() + " " + op + " " + g.expr(v.Y).arg()}
+		}
 		if yid, ok := v.Y.(*ast.Ident); ok && yid.Name == "nil" && isList(lt) && g.rdKind == "" {
 			// nil and empty slices are not distinguished (GoRt): x == nil reads "x is empty"
 			if v.Op == token.EQL {
@@ -776,6 +867,14 @@ func (e ex) opnd2() string {
 }
 
 func (g *gl) call(c *ast.CallExpr) ex {
+	if g.heapT != "" {
+		if txt, wrs, ok := g.heapCall(c); ok {
+			if wrs {
+				g.die(c, "a heap-writing call inside an expression")
+			}
+			return ex{text: txt, act: true}
+		}
+	}
 	// calls that stand for an input of the translated function (documented where they are declared)
 	if id, ok := c.Fun.(*ast.Ident); ok {
 		if p, ok := g.opaque[id.Name]; ok {
@@ -1047,6 +1146,57 @@ func (g *gl) nonNegative(e ast.Expr) bool {
 	return false
 }
 
+// heapAlloc emits the allocation for &heapT{field: e} (or &heapT{e}) and returns the new pointer as a term
+func (g *gl) heapAlloc(w *wr, u *ast.UnaryExpr) string {
+	cl, ok := u.X.(*ast.CompositeLit)
+	if !ok || len(cl.Elts) != 1 {
+		g.die(u, "allocation of the heap type")
+	}
+	var fv ast.Expr = cl.Elts[0]
+	if kv, ok := fv.(*ast.KeyValueExpr); ok {
+		fv = kv.Value
+	}
+	w.line("heap := heap ++ [" + g.expr(fv).opnd() + "]")
+	return "(len heap) - 1"
+}
+
+// heapCall: a call of a translated function of a heap-mode package; returns the call text and whether the
+// callee writes the heap (then its result is (value, heap) -- or just the heap when it returns nothing)
+func (g *gl) heapCall(c *ast.CallExpr) (string, bool, bool) {
+	var lname string
+	var recv ast.Expr
+	switch f := c.Fun.(type) {
+	case *ast.Ident:
+		if fn, ok := g.info.Uses[f].(*types.Func); ok && fn.Pkg() == g.pkg {
+			lname = fn.Name()
+		}
+	case *ast.SelectorExpr:
+		if fn, ok := g.info.Uses[f.Sel].(*types.Func); ok && fn.Pkg() == g.pkg {
+			if tv, ok := g.info.Types[f.X]; ok && g.isHeapPtr(tv.Type) {
+				lname, recv = g.methodNames[g.heapT+"."+fn.Name()], f.X
+			}
+		}
+	}
+	wr, known := g.heapFuncs[lname]
+	callee := g.funcs[lname]
+	if lname == "" || !known || callee == nil || !callee.found {
+		return "", false, false
+	}
+	parts := []string{lname}
+	if callee.fuel {
+		g.usesFuel = true
+		parts = append(parts, "fuel")
+	}
+	parts = append(parts, "heap")
+	if recv != nil {
+		parts = append(parts, g.expr(recv).arg())
+	}
+	for _, a := range c.Args {
+		parts = append(parts, g.expr(a).arg())
+	}
+	return strings.Join(parts, " "), wr, true
+}
+
 // oneLit stands for the constant 1 of `x++` / `x--`
 var oneLit = &ast.BasicLit{Kind: token.INT, Value: "1"}
 
@@ -1174,6 +1324,12 @@ func (g *gl) assignTo(w *wr, lhs ast.Expr, tok token.Token, rhs ast.Expr) {
 				return
 			}
 		}
+		if x, ok := g.heapField(l.X); ok && tok == token.ASSIGN {
+			tp := g.tmp()
+			w.line("let " + tp + " : Int := " + g.expr(x).opnd())
+			w.line("heap ← setIdx heap " + tp + " (mapSet (← idx heap " + tp + ") " + g.expr(l.Index).arg() + " " + g.rhsOf(rhs).arg() + ")")
+			return
+		}
 		if m, ok := g.typeOf(l.X).Underlying().(*types.Map); ok && !isEmptyStruct(m.Elem()) && tok == token.ASSIGN {
 			if id, ok := l.X.(*ast.Ident); ok {
 				n := g.lvName(id)
@@ -1204,6 +1360,44 @@ func (g *gl) assignTo(w *wr, lhs ast.Expr, tok token.Token, rhs ast.Expr) {
 func (g *gl) stmt(w *wr, s ast.Stmt) {
 	if g.iterStmt(w, s) {
 		return
+	}
+	if g.heapT != "" && g.rdKind == "" {
+		if v, ok := s.(*ast.AssignStmt); ok && len(v.Lhs) == 1 && len(v.Rhs) == 1 && (v.Tok == token.ASSIGN || v.Tok == token.DEFINE) {
+			if c, ok := v.Rhs[0].(*ast.CallExpr); ok {
+				if txt, wrs, ok := g.heapCall(c); ok && wrs {
+					id, isId := v.Lhs[0].(*ast.Ident)
+					if !isId {
+						g.die(v, "result of a heap-writing call assigned to a non-variable")
+					}
+					t := g.tmp()
+					w.line("let " + t + " ← " + txt)
+					w.line("heap := " + t + ".2")
+					if v.Tok == token.DEFINE && g.info.Defs[id] != nil {
+						kw := "let "
+						if g.mut[g.objOf(id)] {
+							kw = "let mut "
+						}
+						w.line(kw + g.nameOf(g.objOf(id)) + " := " + t + ".1")
+					} else {
+						w.line(g.lvName(id) + " := " + t + ".1")
+					}
+					return
+				}
+			}
+		}
+		if es, ok := s.(*ast.ExprStmt); ok {
+			if c, ok := es.X.(*ast.CallExpr); ok {
+				if txt, wrs, ok := g.heapCall(c); ok && wrs {
+					fnT, _ := g.typeOf(c).(*types.Tuple)
+					if fnT != nil && fnT.Len() == 0 {
+						w.line("heap ← " + txt)
+					} else {
+						w.line("heap := (← " + txt + ").2")
+					}
+					return
+				}
+			}
+		}
 	}
 	switch v := s.(type) {
 	case *ast.AssignStmt:
@@ -1469,6 +1663,12 @@ func (g *gl) stmt(w *wr, s ast.Stmt) {
 		}
 		if c, ok := v.X.(*ast.CallExpr); ok {
 			if id, ok := c.Fun.(*ast.Ident); ok && id.Name == "delete" && len(c.Args) == 2 {
+				if x, ok := g.heapField(c.Args[0]); ok {
+					tp := g.tmp()
+					w.line("let " + tp + " : Int := " + g.expr(x).opnd())
+					w.line("heap ← setIdx heap " + tp + " (mapErase (← idx heap " + tp + ") " + g.expr(c.Args[1]).arg() + ")")
+					return
+				}
 				if m, ok := c.Args[0].(*ast.Ident); ok {
 					n := g.lvName(m)
 					w.line(n + " := setErase " + n + " " + g.expr(c.Args[1]).arg())
@@ -1571,6 +1771,27 @@ func (g *gl) stmt(w *wr, s ast.Stmt) {
 				g.die(v, "returned record")
 			}
 			w.line("return ((" + rec + ", " + g.expr(v.Results[1]).opnd() + "), " + g.rdState + ")")
+			return
+		}
+		if g.heapT != "" && g.rdKind == "" && g.yieldT == "" && len(v.Results) <= 1 {
+			val := ""
+			if len(v.Results) == 1 {
+				if u, ok := v.Results[0].(*ast.UnaryExpr); ok && u.Op == token.AND && g.isHeapPtr(g.typeOf(u)) {
+					val = g.heapAlloc(w, u)
+				} else {
+					val = g.expr(v.Results[0]).opnd()
+				}
+			}
+			switch {
+			case val == "" && g.heapWr:
+				w.line("return heap")
+			case val == "":
+				w.line("return ()")
+			case g.heapWr:
+				w.line("return (" + val + ", heap)")
+			default:
+				w.line("return " + val)
+			}
 			return
 		}
 		if g.yieldT != "" {
@@ -2339,8 +2560,8 @@ func (g *gl) funcOrMethod(recvType, goName, name, rel, placeholder string) {
 				rt = p.Elem()
 			}
 			st, ok := rt.Underlying().(*types.Struct)
-			if g.opaqueName(robj.Type()) != "" {
-				ok = false // an opaque record: one parameter
+			if g.opaqueName(robj.Type()) != "" || g.isHeapPtr(robj.Type()) {
+				ok = false // an opaque record / a pointer into the heap: one parameter
 			}
 			if !ok {
 				// a method of a named non-struct type (a map, a slice, …): the receiver is an ordinary parameter
@@ -2366,8 +2587,12 @@ func (g *gl) funcOrMethod(recvType, goName, name, rel, placeholder string) {
 				}
 			}
 		}
-		if sig.Results == nil || len(sig.Results.List) == 0 {
+		if (sig.Results == nil || len(sig.Results.List) == 0) && g.heapT == "" {
 			g.die(fd, "result list")
+		}
+		if g.heapT != "" {
+			g.heapWr = g.heapWrites(fd.Body)
+			g.heapFuncs[name] = g.heapWr
 		}
 		g.usesFuel = false
 		g.results, g.namedRes = nil, false
@@ -2395,7 +2620,10 @@ func (g *gl) funcOrMethod(recvType, goName, name, rel, placeholder string) {
 		w := &wr{b: &bytes.Buffer{}, ind: 1}
 		resT := ""
 		doc := ""
-		rt := g.info.Types[sig.Results.List[0].Type].Type
+		var rt types.Type
+		if len(g.results) > 0 {
+			rt = g.info.Types[sig.Results.List[0].Type].Type
+		}
 		if len(g.results) > 1 {
 			var ts []string
 			for _, r := range g.results {
@@ -2403,7 +2631,9 @@ func (g *gl) funcOrMethod(recvType, goName, name, rel, placeholder string) {
 			}
 			resT = "(" + strings.Join(ts, " × ") + ")"
 		}
-		if named, ok := rt.(*types.Named); ok && named.Obj().Pkg() != nil && named.Obj().Pkg().Path() == "iter" && named.Obj().Name() == "Seq" {
+		if rt == nil {
+			resT = "Unit"
+		} else if named, ok := rt.(*types.Named); ok && named.Obj().Pkg() != nil && named.Obj().Pkg().Path() == "iter" && named.Obj().Name() == "Seq" {
 			// return func(yield func(T) bool) { ... }
 			if len(body) != 1 {
 				g.die(fd, "iter.Seq function body")
@@ -2480,9 +2710,26 @@ func (g *gl) funcOrMethod(recvType, goName, name, rel, placeholder string) {
 				w.line("let mut " + g.nameOf(r) + " : " + g.leanType(r.Type()) + " := " + bareZero(g.zero(r.Type())))
 			}
 		}
+		if g.heapT != "" && g.heapWr {
+			w.line("let mut heap := heap")
+		}
 		g.block(w, body)
 		if g.yieldT != "" {
 			w.line("return log")
+		}
+		if g.heapT != "" {
+			if rt == nil {
+				if g.heapWr {
+					w.line("return heap")
+					resT = heapLean
+				} else {
+					w.line("return ()")
+				}
+			} else if g.heapWr {
+				resT = "(" + paren(resT) + " × " + heapLean + ")"
+			}
+			params = append([]string{"(heap : " + heapLean + ")"}, params...)
+			doc += "; `heap` is the list of the map fields of all " + g.heapT + " nodes allocated so far, a *" + g.heapT + " is an index into it (nil = -1)"
 		}
 		g.yieldT = ""
 		globals := g.sortedGlobals()
@@ -3075,7 +3322,7 @@ func loadPkg(dir string) *gl {
 		fmt.Fprintln(os.Stderr, "golean: cannot parse", dir, err)
 		os.Exit(2)
 	}
-	g := &gl{fset: fset, funcs: map[string]*glFunc{}, iterFuncs: map[string]bool{}}
+	g := &gl{fset: fset, funcs: map[string]*glFunc{}, iterFuncs: map[string]bool{}, heapFuncs: map[string]bool{}, methodNames: map[string]string{}}
 	for _, p := range pkgs {
 		var names []string
 		for n := range p.Files {
@@ -3198,6 +3445,19 @@ func goLean(repo, out string) {
 	g2.method("Node", "PostOrder", "PostOrder", "formats/newick", "def PostOrder (fuel : Nat) (n : Newick.Tree) (yield : List Newick.Tree → Bool) : Option (List Newick.Tree) := none")
 	for _, n := range []string{"traverse", "PreOrder", "PostOrder"} {
 		w.WriteString(g2.funcs[n].text)
+		w.WriteString("\n")
+	}
+	// trie: New, Add, Has, Delete over an explicit heap
+	g9 := loadPkg(filepath.Join(repo, "trie"))
+	g9.heapT = "Trie"
+	const HP = heapLean
+	g9.methodNames = map[string]string{"Trie.Add": "Trie_Add", "Trie.Has": "Trie_Has", "Trie.Delete": "Trie_Delete"}
+	g9.function("New", "trie", "def New (heap : "+HP+") : Option (Int × "+HP+") := none")
+	g9.method("Trie", "Add", "Trie_Add", "trie", "def Trie_Add (fuel : Nat) (heap : "+HP+") (t : Int) (b : "+B+") : Option ("+HP+") := none")
+	g9.method("Trie", "Has", "Trie_Has", "trie", "def Trie_Has (fuel : Nat) (heap : "+HP+") (t : Int) (b : "+B+") : Option Bool := none")
+	g9.method("Trie", "Delete", "Trie_Delete", "trie", "def Trie_Delete (heap : "+HP+") (t : Int) (b : "+B+") : Option (Bool × "+HP+") := none")
+	for _, n := range g9.order {
+		w.WriteString(g9.funcs[n].text)
 		w.WriteString("\n")
 	}
 	g8 := loadPkg(filepath.Join(repo, "formats", "bed"))
